@@ -6,6 +6,7 @@ cd /repo && git status --short | grep -v egg-info | grep . && { echo "/repo not 
 git -C /repo apply $S/patch.diff || { echo "patch does not apply to current /repo HEAD"; exit 2; }
 cd /verif && /venv/bin/python py/check.py $PID --tier $TIER $EXTRA > $S/check_$PID.log 2>&1; RC=$?
 git -C /repo checkout -- .
+/venv/bin/python /verif/tools/regen.py > /dev/null 2>&1
 echo "check $PID --tier $TIER exit=$RC" > $S/check_$PID.txt
 grep -h "^VIOLATION\|^KNOWN" $S/check_$PID.log | head -5 >> $S/check_$PID.txt
 for f in $(grep -ho "replay=[^ ]*" $S/check_$PID.log | head -3 | cut -d= -f2); do python3 -c "
